@@ -2,6 +2,7 @@ import BddVerif.Props.C04
 import BddVerif.Lemmas.AlgoEqApply
 import BddVerif.Lemmas.AlgoEqTernary
 import BddVerif.Lemmas.ExactWalkC04
+import BddVerif.Lemmas.ExactWalkC04Complete
 #print axioms B.Props.C04.fused2_spec
 #print axioms B.Props.C04.fused2_operand
 #print axioms B.Props.C04.and_consistent
@@ -24,3 +25,7 @@ import BddVerif.Lemmas.ExactWalkC04
 #print axioms B.ExactWalk.walk3_sound
 #print axioms B.ExactWalk.walk2_sound_driver
 #print axioms B.ExactWalk.walk3_sound_driver
+#print axioms B.ExactWalk.walk2_complete
+#print axioms B.ExactWalk.walk3_complete
+#print axioms B.ExactWalk.walk2_complete_driver
+#print axioms B.ExactWalk.walk3_complete_driver
